@@ -27,6 +27,7 @@ Observers == \A j \in Regs :
   /\ LIsEmpty(L, j) = (p[j] = <<>>) /\ SIsEmpty(S, j) = (p[j] = <<>>)
   /\ (p[j] # <<>> => LHead(L, j) = p[j][1] /\ SHead(S, j) = p[j][1])
   /\ FoldL("lin", LElems(L, j)) = FoldL("lin", p[j]) /\ FoldL("cat", SElems(S, j)) = FoldL("cat", p[j])
+FoldFastAgrees == \A j \in Regs : FoldFast("cat", p[j]) = FoldL("cat", p[j]) /\ FoldFast("lin", p[j]) = FoldL("lin", p[j])
 Laws == LLaws(L, Vals) /\ SLaws(S, Vals, Spares)
 Structure == LStructOK(L) /\ SStructOK(S)
 \* nothing that exists is ever overwritten: cells and array cells are immutable, heaps only grow
